@@ -204,6 +204,15 @@ SOURCES = [
     "query ($v: String = \"d\", $x: Int! = 1, $l: [Int!] = [1], $o: In = {a: 2}, $i: Int) { f(a: $v, i: $i, l: $l, o: $o) m: f(i: $x) }", "{ f(a: $v) }", "query ($v: String!) { f(a: $v) }", "{ g { g { g { g { nn } } } } }",
 ]
 
+# documents that parse although something is said twice (input object fields, arguments, variables, directives, names), with
+# the field that carries it selected twice: validation rules that compare or sort such nodes must report, not raise
+DUP_ARGS = ["(o: {a: 1, a: 2})", "(o: {a: 1, a: 1})", "(o: {c: {a: 1, a: 2}, abc: 1})", "(o: {b: [\"x\", \"x\"], b: []})", "(a: \"x\", a: \"y\")",
+            "(o: {a: $v, a: $v})", "(l: [1, 1], l: [1])", "(o: {abc: 1, medium: 2, abc: 3, greenish: 4, medium: 5})", "(o: [{a: 1, a: 2}])", "(e: RED, e: RED)"]
+DUP_SHAPES = ["{ f%s f%s }", "{ x: f%s x: f%s }", "{ f%s ...F } fragment F on Query { f%s }", "query ($v: Int, $v: Int) { f%s n f%s }",
+              "{ f%s @skip(if: false) @skip(if: false) f%s }", "{ ...F ...F } fragment F on Query { f%s } fragment F on Query { f%s }",
+              "query Q { f%s } query Q { f%s }", "{ g { x } f%s g { x x: nn } f%s }"]
+SOURCES += [sh % (a, b) for sh in DUP_SHAPES for a in DUP_ARGS for b in (a, DUP_ARGS[0])][::3]
+
 VARIABLES = [None, {}, {"v": "s"}, {"v": 1}, {"v": None}, {"x": 1}, {"x": "1"}, {"x": 2 ** 40}, {"x": float("nan")}, {"x": None},
              {"o": {"a": 1}}, {"o": {"a": None}}, {"o": {"zzz": 1}}, {"o": []}, {"o": {"c": {"c": {"a": "x"}}}}, {"l": [1, None]}, {"l": 1},
              {"l": "x"}, {"l": (1, 2)}, {"e": "RED"}, {"e": "PURPLE"}, {"e": 1}, {"i": True}, {"i": 1.5}, {"i": float("inf")},
